@@ -271,13 +271,16 @@ func (t *tailBuf) String() string { t.mu.Lock(); defer t.mu.Unlock(); return str
 var procSeq int
 var procMu sync.Mutex
 
+// spawnGomaxprocs is what workers run with; the determinism re-check uses another value on purpose.
+var spawnGomaxprocs = "2"
+
 func spawn(c *Check, raceDir string) (*proc, error) {
 	procMu.Lock()
 	procSeq++
 	id := procSeq
 	procMu.Unlock()
 	cmd := exec.Command(os.Args[0], "worker", c.ID)
-	cmd.Env = append(os.Environ(), "GOMAXPROCS=2", "GOTRACEBACK=single")
+	cmd.Env = append(os.Environ(), "GOMAXPROCS="+spawnGomaxprocs, "GOTRACEBACK=single")
 	if c.Race {
 		cmd.Env = append(cmd.Env,
 			"GORACE=log_path="+filepath.Join(raceDir, "race")+" halt_on_error=0 history_size=3",
@@ -594,6 +597,7 @@ func Supervise(c *Check, o Opts) int {
 	}
 	selfBad := 0
 	if selfN > 0 {
+		spawnGomaxprocs = "7" // a different degree of real parallelism must not change any run
 		p, err := spawn(c, raceDir)
 		if err == nil {
 			for i := 0; i < selfN; i++ {
